@@ -1382,6 +1382,9 @@ def _run_yaml(srcs, res, label):
             res.stat("yaml_play_without_dict_twin")        # loader-only types (sets): grouped inside this unit only
         elif twin[0] == "ok" and twin[1] == run[1]:
             res.stat("yaml_digest_equals_dict_twin")
+        elif suspicious_leaves(obj):
+            # a loader object that serialises unlike its plain value (drafted findings): grouped inside this unit only
+            res.stat("yaml_play_with_loader_object_grouped_in_unit_only")
         else:
             res.stat("yaml_digest_differs_from_dict_twin")
             res.notes.append("some YAML-loaded plays digest differently from their dict twins: collisions between "
